@@ -1,1 +1,58 @@
-From TL Require Import Base.Base.
+(* C11 - Evaluation does not mutate code, literals or arguments.             *)
+(* Statements only; the proofs are in Proofs/Heap.v and Proofs/EvalRel.v.      *)
+From TL Require Import Base.Base Model.Reader Model.Printer Model.Store Model.Eval Model.Init Model.Api.
+From TL Require Import Proofs.Heap Proofs.EvalRel.
+Local Open Scope list_scope.
+
+(* The list-building primitives the library functions are written with, on    *)
+(* the heap of mutable cells (Model/Api.v): copying a list (deep_copy, used by  *)
+(* append, backquote splicing, sort's result) writes NO cell that existed        *)
+(* before; append copies what it attaches and writes exactly one cell, which     *)
+(* belongs to the destination being built; push writes exactly one cell, the     *)
+(* empty-list object that terminates the destination.                            *)
+Theorem C11_copy_writes_nothing : forall h i h' r,
+  h_deep_copy h i = Ok (h', r) -> same_below (hnext h) h h'.
+Proof. intros h i h' r H. apply (deep_copy_fresh h i h' r H). Qed.
+Theorem C11_append_writes_one_destination_cell : forall h a v h',
+  h_append h a v = Ok h' -> exists w, written_one (hnext h) w h h'.
+Proof. exact append_writes_one_cell. Qed.
+Theorem C11_push_writes_the_terminator : forall h a v h',
+  h_push h a v = Ok h' -> exists w, h_null h w = true /\ written_one (hnext h) w h h'.
+Proof. exact push_writes_end_cell. Qed.
+
+(* Hence every list that does not contain the destination's end cell - the    *)
+(* program text, quoted constants, the argument lists - reads exactly as before  *)
+Theorem C11_other_lists_read_the_same : forall fuel h h' n w i,
+  written_one n w h h' -> avoids fuel h n w i = true -> abs fuel h' i = abs fuel h i.
+Proof. exact abs_unchanged. Qed.
+Theorem C11_after_copy_all_lists_read_the_same : forall fuel h h' n i,
+  same_below n h h' -> below fuel h n i = true -> abs fuel h' i = abs fuel h i.
+Proof. exact abs_same_below. Qed.
+
+(* In the evaluator model values are immutable: evaluation is a function of   *)
+(* the form and the state, so the same expression in the same state gives the    *)
+(* same result any number of times; and an answer does not depend on the fuel    *)
+Theorem C11_repeatable : forall F f f' t s r s',
+  eval_string F f t s = (r, s') -> r <> Fuel -> (f <= f')%nat -> eval_string F f' t s = (r, s').
+Proof. intros. eapply eval_string_mono; eassumption. Qed.
+
+Print Assumptions C11_copy_writes_nothing. Print Assumptions C11_append_writes_one_destination_cell.
+Print Assumptions C11_push_writes_the_terminator. Print Assumptions C11_other_lists_read_the_same.
+Print Assumptions C11_after_copy_all_lists_read_the_same. Print Assumptions C11_repeatable.
+
+(* non-vacuity: a literal inside a function body after appends and splices *)
+Definition F0 : fops :=
+  {| f_add := fun _ _ => 0%Z; f_sub := fun _ _ => 0%Z; f_mul := fun _ _ => 0%Z;
+     f_div := fun _ _ => 0%Z; f_rem := fun _ _ => 0%Z; f_pow := fun _ _ => 0%Z;
+     f_max := fun _ _ => 0%Z; f_min := fun _ _ => 0%Z; f_of_int := fun z => z;
+     f_to_int := fun z => z; f_round := fun z => z; f_trunc := fun z => z;
+     f_lt := Z.ltb; f_le := Z.leb; f_eq := Z.eqb; f_is_finite := fun _ => true;
+     f_to_dec := fun _ => []; f_of_dec := fun _ => None |}.
+Definition ev0 (p : string) := fst (eval_string F0 90 (s2t p) (init_state [] None)).
+Example C11_ex :
+  ev0 "(setq l '(1)) (defun g () (let ((x '(1))) `(,@x 2 ,@l))) (list (g) (g) (append l '(3)) (append nil l) (sort '(2 1) '<) l)"
+  = ev0 "'((1 2 1) (1 2 1) (1 3) (1) (1 2) (1))".
+Proof. vm_compute. reflexivity. Qed.
+
+Check C11_append_writes_one_destination_cell : forall h a v h',
+  h_append h a v = Ok h' -> exists w, written_one (hnext h) w h h'.
